@@ -99,6 +99,32 @@ W :: struct { a: u64, b: u8 };
 arr :: W.[comptime { W.{ a = %(a)d, b = 2 } }, comptime { W.{ a = %(b)d, b = 4 } }, comptime { W.{ a = 5, b = %(c)d } }];
 main :: () -> i32 { i32.(arr[1].b) }
 """),
+    # constant data assembled from *other globals* whose own type is narrower than the place they
+    # are used at (an untyped literal global, a typed narrower global, a comptime block whose
+    # body type is narrower than the annotation)
+    ("const_array_mixed", """
+B :: %(a)d;
+C : i64 : %(b)d;
+U : u8 : %(c)d;
+ARR :: i64.[C, B, 3];
+ARR2 :: u16.[U, 300, U];
+main :: () -> i32 { i32.(ARR[1]) + i32.(ARR2[0]) + i32.(ARR2[2]) }
+"""),
+    ("typed_narrow_global", """
+B : i64 : comptime { t : i32 = %(a)d; t + 1 };
+A :: comptime { x : i64 = 5; y : i64 = B; x + y };
+F : f64 : comptime { t : f32 = 1.5; t };
+main :: () -> i32 { i32.(B) + i32.(A) + i32.(F) }
+"""),
+    ("const_alias_chain", """
+base : u16 : %(a)d;
+w1 :: base;
+w2 :: w1;
+words :: u32.[w2, base, %(b)d];
+flag :: true;
+flags :: bool.[flag, false, flag];
+main :: () -> i32 { v := i32.(words[0]) + i32.(words[1]); if flags[2] { v } else { %(c)d } }
+"""),
     ("tuple_like", """
 Pair :: struct { k: u8, v: [3]u16, last: u8 };
 mk :: (n: u16) -> Pair { Pair.{ k = %(c)d, v = u16.[n, n + 1, n + 2], last = 7 } }
@@ -277,7 +303,7 @@ def make_program(rnd):
     variant = gen.random_variant(prog, rnd)
     # keep generation order inside each file: C21 is not about definition order
     pos = {n: i for i, n in enumerate(prog.names())}
-    variant = gen.Variant([sorted(f, key=lambda n: pos[n]) for f in variant.order])
+    variant = gen.Variant([sorted(f, key=lambda n: pos[n]) for f in variant.order], variant.via)
     files = gen.render(prog, variant)
     label = "G-valid"
     needs_core = "use_core" in prog.features
@@ -337,6 +363,11 @@ def random_world(rnd):
     if on(0.35):
         w["hole_mmap"] = rnd.choice([4096, 1 << 21, 1 << 28, 5 << 30])
         dims.append("hole_mmap")
+    if on(0.35):
+        # the whole brk heap moves by a multiple of 4 GiB: the *upper* half of every heap address
+        # changes, which none of the other shifts does (real ASLR varies those bits too)
+        w["heap_hole"] = rnd.choice([1, 2, 3, 5, 8]) << 32
+        dims.append("heap_hole")
     if on(0.45):
         w["perturb"] = rnd.randint(1, 255)
         dims.append("perturb")
